@@ -7,6 +7,8 @@ refpeer client to a real asyncssh server.  Oracle: auth ground-truth model.
 """
 
 import json
+import os
+import shutil
 
 import asyncssh
 from cryptography.hazmat.primitives import serialization
@@ -90,6 +92,8 @@ class AuthServer(asyncssh.SSHServer):
 
     def begin_auth(self, username):
         self.log.append(('begin_auth', username))
+        if self.env.get('cfgmode'):
+            return True         # the authorized keys come from the sshd-style configuration file
         text = ''.join(openssh_line(k, o) for k, o in AUTH_KEYS.get(username, []))
         if username == 'alice':
             text += openssh_line('ca', 'cert-authority,principals="alice",no-pty')
@@ -294,10 +298,38 @@ def alphabet(level):
     return a
 
 
+_cfg_paths = {}
+SCRATCH = '/dev/shm/asyncssh-verif-c05-%d' % os.getpid()       # unique per check run (workers are forked later)
+
+
+def config_for(mode):
+    """sshd-style configuration that selects the authorized keys per user: AuthorizedKeysFile with %u, or
+    Match User blocks.  The per-user files hold exactly what begin_auth() installs in the callback mode."""
+    key = (mode, os.getpid())
+    if key not in _cfg_paths:
+        d = os.path.join(SCRATCH, '%d-%s' % (os.getpid(), mode.replace('%', '')))
+        os.makedirs(os.path.join(d, 'keys'), exist_ok=True)
+        for user in ('alice', 'bob'):
+            text = ''.join(openssh_line(k, o) for k, o in AUTH_KEYS.get(user, []))
+            if user == 'alice':
+                text += openssh_line('ca', 'cert-authority,principals="alice",no-pty')
+            with open(os.path.join(d, 'keys', user), 'w') as f:
+                f.write(text)
+        with open(os.path.join(d, 'sshd_config'), 'w') as f:
+            if mode == 'cfg-%u':
+                f.write('AuthorizedKeysFile %s/keys/%%u\n' % d)
+            else:
+                f.write('Match User alice\n  AuthorizedKeysFile %s/keys/alice\nMatch User bob\n  AuthorizedKeysFile %s/keys/bob\n' % (d, d))
+        _cfg_paths[key] = os.path.join(d, 'sshd_config')
+    return _cfg_paths[key]
+
+
 # ------------------------------------------------------------------ one execution
 def execute(hist, chooser, async_begin=False, seed=0):
-    env = {'async_begin': async_begin}
-    w = H.SrvWorld(seed=seed, env=env, auto_executor=False, server_factory=AuthServer)
+    cfgmode = async_begin if isinstance(async_begin, str) else None
+    env = {'async_begin': async_begin is True, 'cfgmode': cfgmode}
+    sopts = dict(config=[config_for(cfgmode)]) if cfgmode else None
+    w = H.SrvWorld(seed=seed, env=env, auto_executor=False, server_factory=AuthServer, sopts=sopts)
     rp, loop = w.rp, w.loop
     obs = {'events': []}
     try:
@@ -515,6 +547,15 @@ def main(tier, seed):
     hs = histories(tier)
     jobs = [(h, bound if len(h) < 3 or tier == 'thorough' else min(bound, 2), False) for h in hs]
     jobs += [(h, 2 if tier == 'quick' else 3, True) for h in hs if len(h) <= 2]
+    # servers that take the authorized keys of each user from an sshd-style configuration (reloaded when the
+    # user name changes): user switches with keys and certificates
+    ca = [('none', 'alice'), ('none', 'bob'), ('pk', 'alice', 'ka2', 'good'), ('pk', 'bob', 'ka2', 'good'), ('pk', 'bob', 'kb', 'good'),
+          ('pk', 'alice', 'kb', 'good'), ('probe', 'alice', 'ka'), ('probe', 'bob', 'ka'), ('pk', 'bob', 'ka', 'good'),
+          ('cert', 'alice', 'good'), ('cert', 'bob', 'good'), ('pw', 'bob', 'wrong')]
+    chs = [[r] for r in ca] + [[r1, r2] for r1 in ca for r2 in ca] + \
+        [[r1, r2, r3] for r1 in ca[:2] for r2 in ca for r3 in ca[2:9]]
+    for mode in ('cfg-%u', 'cfg-match'):
+        jobs += [([list(r) for r in h], 1 if tier == 'quick' else 2, mode) for h in chs]
     # determinism: the same schedule twice
     probe = [['pw', 'alice', 'right'], ['pw', 'bob', 'wrong']]
     ch0 = core.Chooser([])
@@ -531,13 +572,15 @@ def main(tier, seed):
         print('HARNESS-NONDETERMINISM: %r != %r' % (o1, o2))
         return 2
     acc = core.pmap(explore_history, core.rotate(jobs, seed), chunksize=8)
+    shutil.rmtree(SCRATCH, ignore_errors=True)
     acc.merge(converse())
     rule = ('every history of USERAUTH requests (alphabet: none/password right|wrong|other-user/'
             'publickey probe/publickey signed good|wrong session id|other user in signed blob|'
             'other signer|wrong service/malformed/channel-open probe, users alice|bob) of length '
             '<=2 over the full alphabet and 3 over a reduced one, sent pipelined; for each, every '
             'schedule of pending validator futures, begin_auth futures, reload_config executor '
-            'jobs and packet deliveries with at most `bound` deviations from FIFO; distinct = '
+            'jobs and packet deliveries with at most `bound` deviations from FIFO; the same over a reduced '
+            'alphabet against servers whose per-user keys come from an sshd-style configuration (%u / Match User); distinct = '
             'distinct (history, schedule, outcome)')
     return core.finish(PROP, tier, seed, 'model_checking', acc, t0, rule,
                        {'deviation_bound': bound, 'histories': len(hs),
